@@ -98,6 +98,23 @@ CATALOGUE = [
     ('C06', 'unicast-also-processed-by-neighbours', 'bacpypes/netservice.py',
      "            processLocally = (npdu.npduDADR.addrNet == self.local_adapter.adapterNet) \\\n                and (npdu.npduDADR.addrAddr == self.local_adapter.adapterAddr.addrAddr)",
      "            processLocally = (npdu.npduDADR.addrNet == self.local_adapter.adapterNet)"),
+    # ---- C13
+    ('C13', 'bbmd-rebroadcasts-directed-broadcast', 'bacpypes/bvllservice.py',
+     "            elif pdu.pduDestination.addrType == Address.localBroadcastAddr:\n                if _debug: BIPBBMD._debug(\"    - directed broadcast message\")\n",
+     "            elif pdu.pduDestination.addrType == Address.localBroadcastAddr:\n                if _debug: BIPBBMD._debug(\"    - directed broadcast message\")\n                xpdu.pduDestination = LocalBroadcast()\n                self.request(xpdu)\n"),
+    ('C13', 'distribute-back-to-registering-fd', 'bacpypes/bvllservice.py', "                if fdte.fdAddress != pdu.pduSource:\n", "                if True:\n", 2),
+    ('C13', 'fdt-never-ages', 'bacpypes/bvllservice.py', "            fdte.fdRemain -= 1\n", "            fdte.fdRemain -= 0\n", 2),
+    ('C13', 'fdt-no-grace', 'bacpypes/bvllservice.py', "        fdte.fdRemain = ttl + 5\n", "        fdte.fdRemain = ttl - 1\n", 2),
+    ('C13', 'fd-renews-every-2ttl', 'bacpypes/bvllservice.py', "        # schedule the next registration renewal\n        self.install_task(delta=self.bbmdTimeToLive)",
+     "        # schedule the next registration renewal\n        self.install_task(delta=self.bbmdTimeToLive * 2)"),
+    ('C13', 'unregister-keeps-renewing', 'bacpypes/bvllservice.py',
+     "        # clear the BBMD address and time-to-live\n        self.bbmdAddress = None\n        self.bbmdTimeToLive = None\n\n        # unschedule registration renewal & timeout tracking if previously\n        # scheduled\n        self.suspend_task()\n",
+     "        # unschedule registration renewal & timeout tracking if previously\n        # scheduled\n"),
+    ('C13', 'source-from-forwarding-bbmd', 'bacpypes/bvllservice.py',
+     "            # build a PDU with the source from the real source\n            xpdu = PDU(pdu.pduData, source=pdu.bvlciAddress, destination=LocalBroadcast(), user_data=pdu.pduUserData)\n#           if route_aware:\n#               xpdu.pduSource.pduRoute = pdu.pduSource",
+     "            # build a PDU with the source from the real source\n            xpdu = PDU(pdu.pduData, source=pdu.pduSource, destination=LocalBroadcast(), user_data=pdu.pduUserData)\n#           if route_aware:\n#               xpdu.pduSource.pduRoute = pdu.pduSource"),
+    ('C13', 'delete-fdt-entry-noop', 'bacpypes/bvllservice.py', "            if addr == self.bbmdFDT[i].fdAddress:\n                del self.bbmdFDT[i]\n                break", "            if addr == self.bbmdFDT[i].fdAddress:\n                break", 2),
+    ('C13', 'fd-reregister-broken-again', 'bacpypes/bvllservice.py', "        # no ack yet, this might follow a call to unregister()\n        self.registrationStatus = -1\n", ""),
     # ---- C12
     ('C12', 'window-max-instead-of-min', 'bacpypes/appservice.py', "        self.actualWindowSize = min(apdu.apduWin, self.ssmSAP.proposedWindowSize)\n        if _debug: ServerSSM._debug(",
      "        self.actualWindowSize = max(apdu.apduWin, self.ssmSAP.proposedWindowSize)\n        if _debug: ServerSSM._debug("),
